@@ -83,7 +83,8 @@ class Emitter_off:
         if callback is OMITTED:
             return len(after) == 0
         # exactly the listeners for that callback are removed, the others stay in place and in order
-        keep = [l for l in before if not same(l.fn, callback)]
+        # ("for that callback": equal to it - a second bound-method object of the same method is that callback too - not only identical)
+        keep = [l for l in before if not (l.fn == callback)]
         return same_listeners(after, keep)
 
 
